@@ -420,6 +420,13 @@ func (e *MetaExecutor) CreateIterator(nodeID uint64, shardIDs []uint64, ctx cont
 	// The timeout covers the request and its response, not the stream that follows.
 	conn.SetReadDeadline(time.Time{})
 
+	// The remote node has nothing to stream for these shards. An iterator of a
+	// made-up type would make the merge drop the iterators of the real type.
+	if resp.Type == influxql.Unknown {
+		conn.Close()
+		return nil, nil
+	}
+
 	return query.NewReaderIterator(ctx, conn, resp.Type, resp.Stats), nil
 }
 
